@@ -53,6 +53,21 @@ def l1_of(rec, intern):
     """abstract input of Level 1 (Req!C02) from the recorded input tokens; purely mechanical segmentation"""
     inp = rec["input"]
     kind = toks.input_kind(inp)
+    if kind in ("fn", "mod"):
+        # an `async_trait` attribute below entrait is moved to the generated items (C12): the original is the item minus it
+        _, attrs = toks.skip_attrs(inp)
+        drop = set()
+        for (a, b) in attrs:
+            idents = []
+            for t in inp[a:b][2:]:
+                if t.startswith("I"):
+                    idents.append(t[1:])
+                elif t.startswith("G"):
+                    break
+            if idents and idents[-1] == "async_trait":
+                drop.update(range(a, b))
+        if drop:
+            inp = [t for n, t in enumerate(inp) if n not in drop]
     l1 = {"kind": kind, "toks": intern(nosp(inp)), "close": 0, "keep": [], "sp": [], "bodyFrom": 1}
     if kind == "fn":
         l1["sp"] = intern(inp)
@@ -166,6 +181,14 @@ def main():
             crate.add_case(cid, f"pub trait TI<T>: 'static {{ }}\npub struct X;\n#[::entrait::entrait({kind})]\n{ia}\nimpl TI for X {{\n"
                                 f"    pub {asy}fn f<D: Sync>(d: &D, a: u32) -> u32 {{ a }}\n}}\n")
             origin[cid] = ("attrs-impl", None)
+    # attributes below entrait on a function / module: all of them stay, in the order written - except async_trait, which moves
+    FATTRS = ["#[::async_trait::async_trait]\n/// doc one\n/// doc two\n#[allow(dead_code)]", "/// doc one\n#[::async_trait::async_trait]\n#[deny(unused_variables)]\n#[allow(unused_variables)]",
+              "#[allow(dead_code)]\n#[inline]\n/// doc\n#[::async_trait::async_trait]", "/// doc one\n#[allow(dead_code)]\n/// doc two\n#[cfg(all())]"]
+    for k4, fa in enumerate(FATTRS):
+        crate.add_case(f"a{k4:02d}f", f"#[::entrait::entrait(pub T)]\n{fa}\nasync fn f<D: Sync>(d: &D, a: u32) -> u32 {{ a }}\n")
+        origin[f"a{k4:02d}f"] = ("attrs-fn", None)
+        crate.add_case(f"a{k4:02d}m", f"#[::entrait::entrait(pub T)]\n{fa.replace('#[inline]', '#[allow(unused)]')}\npub mod m {{\n    pub async fn f<D: Sync>(d: &D, a: u32) -> u32 {{ a }}\n}}\n")
+        origin[f"a{k4:02d}m"] = ("attrs-mod", None)
     # items assembled by macro_rules!: fragments arrive wrapped in invisible groups, which carry meaning (`$e * 2` with
     # `$e = 1 + 2`); and syntax that a parse / print round trip normalises away (`fn a<>()`, an empty `where`, `T:`)
     FRAG = [
